@@ -63,8 +63,11 @@ class C11(framework.PropertyCheck):
                     r = rng.random()
                     if d <= 0 or r < 0.5:
                         return ['s', sval()]
-                    if r < 0.6:
+                    if r < 0.57:
                         return ['i', rng.randint(-50, 50)]
+                    if r < 0.6:
+                        # floats that need all 17 significant digits (and a few short ones)
+                        return ['f', rng.choice([0.1 + 0.2, 1 / 3, 2 / 3, 1.5, 0.1, 123456.789, 1.1 * 1.1, 100.0 / 7])]
                     if r < 0.7:
                         return ['y', rng.choice(['a', 'foo', 'sig.x', 'x1'])]
                     return ['l', [val(d - 1) for _ in range(rng.randint(0, 3))]]
@@ -82,7 +85,7 @@ class C11(framework.PropertyCheck):
     def value(self, v):
         from wal.ast_defs import Symbol, WList
         k, x = v
-        return x if k in ('s', 'i') else Symbol(x) if k == 'y' else WList([self.value(e) for e in x])
+        return x if k in ('s', 'i', 'f') else Symbol(x) if k == 'y' else WList([self.value(e) for e in x])
 
     def steps(self, case):
         if case['k'] in ('reread', 'wawko'):
